@@ -1229,6 +1229,9 @@ class Evaluator:
         kws = []
         for k in n.keywords:
             v = self._e(k.value, env, pc, res)
+            if k.arg is None and v[0] == "dict" and v[1] and all(kk[0] == "const" and isinstance(kk[1], str) and kk[1] != "**" for kk, _vv in v[1]):
+                kws.extend((kk[1], vv) for kk, vv in v[1])      # f(**{"a": x, "b": y}) is f(a=x, b=y)
+                continue
             kws.append((k.arg if k.arg is not None else "**", v))
         kws.sort(key=lambda kv: kv[0])
         if f[0] == "attr" and f[2] == "get" and f[1][0] == "dict" and 1 <= len(args) <= 2 and not kws and f[1][1]:
@@ -1319,6 +1322,12 @@ class Evaluator:
             env[lvk] = args[2]
             res.events.append(Event("store", ("tuple", (lvk, args[2])), n, pc))
             return NONE
+        # floor(log2(x)) in its two spellings: int(np.log2(x)) / int(math.log2(x)) and x.bit_length() - 1
+        if fname == "int" and len(args) == 1 and not kws and args[0][0] == "call" and show(args[0][1]) in ("np.log2", "numpy.log2", "math.log2") \
+                and len(args[0][2]) == 1 and not args[0][3]:
+            return ("op", "ilog2", (args[0][2][0],))
+        if f[0] == "attr" and f[2] == "bit_length" and not args and not kws:
+            return add(("op", "ilog2", (f[1],)), ONE)
         if fname in ("np.flipud", "numpy.flipud") and len(args) == 1 and not kws:
             return ("sub", args[0], ("slice", NONE, NONE, num(-1)))        # flipud(a) is a[::-1]
         if fname in ("np.flip", "numpy.flip") and len(args) == 1 and dict(kws).get("axis") == ZERO and len(kws) == 1:
